@@ -7,6 +7,24 @@ from .common import *
 from .core import Ctx, Infra, casehash, log
 
 
+def slice_bulk(ctx, cases, one_in=2):
+    """Keep a seeded 1/one_in of the bulk (Gen_C01!Bulk: wrapped schemas with >= 2 innermost keywords; TLC marks them with
+    bulk = TRUE) and everything else.  Python only drops lines: which half is a function of the seed."""
+    lines = open(cases).read().splitlines(True)
+    kept, k = [], 0
+    for l in lines:
+        if '"bulk":true' in l:
+            k += 1
+            if (k + ctx.seed) % one_in:
+                continue
+        kept.append(l)
+    open(cases, "w").writelines(kept)
+    ctx.extra["bulk_schemas_generated"] = k
+    ctx.extra["schemas_driven"] = len(kept)
+    ctx.sliced = True
+    log("[gen] %d bulk schemas, a seeded 1/%d of them driven: %d schemas in all" % (k, one_in, len(kept)))
+
+
 def gen_schemas(ctx, cfg, label):
     """Run the schema generator; returns (cases path, vals path)."""
     ctx.tlc("Gen_C01", cfg, label=label)
@@ -38,7 +56,12 @@ def c01(ctx: Ctx):
         if not os.environ.get("VERIF_DEV_SKIP_D"):   # development aid only (iterating on F/B); never set by bin/runall, bin/reseed
             ctx.tlc("MC_C01", "MC_C01_%s.cfg" % ctx.tier, label="D SchemaImpl = SchemaSem modulo listed classes; laws", timeout=3000)
         cases, vals = gen_schemas(ctx, "Gen_C01_%s.cfg" % ctx.tier, "F generate schemas (BFS)")
-        ctx.exhaustive = True
+        # The bulk (every 2-keyword schema under every wrapper; thorough: times every outer keyword) is driven as a seeded
+        # slice: quick one half (of ~47k), thorough one third (of ~500k).  Everything else -- all schemas of the innermost
+        # level, every wrapper over <= 1 keyword, every sharing wrapper -- is driven completely, and D (above) runs on the
+        # complete state space in both tiers.
+        slice_bulk(ctx, cases, 2 if ctx.tier == "quick" else 3)
+        ctx.exhaustive = not getattr(ctx, "sliced", False)
     ctx.build_driver()
     logp = os.path.join(ctx.scratch, "log.ndjson")
     ctx.drive(cases, logp, env={"VERIF_VALS": vals}, shards=8)
